@@ -94,8 +94,9 @@ PROPS = {
         "explanation": "reclamation side of the same free-list contracts",
     },
     "C09": {
-        "units": ["vm", "anl"],
+        "units": ["vm", "anl", "cgen"],
         "trusted_base": COMMON_TB + [
+            "units/cgen/prelude.rs: reduced AST, Analysis maps as association lists, std Vec inside code_gen.rs as a typed 16-slot array (assumed contract of Vec), `CodeGenerator::visit` as ghost callee appending a concrete number of marker instructions, specialize_* helpers return None (jit2 build; checked textually), println! no-op; u24 / LabeledInstruction / CallKind / SemanticInformation / ... extracted verbatim, real steel-gen OpCode",
             "units/anl/prelude.rs: reduced AST (real field names; accessors extracted verbatim from steel-parser), AnalysisPass with the real traversal fields (list checked against the real struct every run) + ghost event log, quickscope::ScopeMap / FxHashMap / SmallVec / ThinVec as exact finite models; `self.visit` is the CALLEE CONTRACT of the recursive visitor (records the state it is called in; returns with tail flag, escape flag, stack offset and context depth unchanged, defining context unchanged or cleared); visit_define_without_body abstracted",
             "units/vm/prelude.rs: VmCore/SteelThread with only the touched fields (field lists checked against the real structs every run), frame stack with a ghost count of older frames, reduced SteelVal/ByteCodeLambda, RootedInstructions as a raw slice pointer, message-less stop!",
             "real steel-gen OpCode; u24/DenseInstruction/StackFrame/STACK_LIMIT extracted verbatim",
@@ -108,8 +109,9 @@ PROPS = {
         "explanation": "frame-reuse contract of the interpreter's tail-call handlers and the depth-limit check",
     },
     "C01": {
-        "units": ["vm", "anl", "cev"],
+        "units": ["vm", "anl", "cev", "cgen"],
         "trusted_base": COMMON_TB + [
+            "units/cgen/prelude.rs: reduced AST, Analysis maps as association lists, std Vec inside code_gen.rs as a typed 16-slot array (assumed contract of Vec), `CodeGenerator::visit` as ghost callee appending a concrete number of marker instructions, specialize_* helpers return None (jit2 build; checked textually), println! no-op; u24 / LabeledInstruction / CallKind / SemanticInformation / ... extracted verbatim, real steel-gen OpCode",
             "units/cev/prelude.rs: reduced AST, ConstantEnv as a ghost (one symbolic binding, lookups/unbinds counted), FxHashSet as a 2-slot set model, `ConstantEvaluator::visit` as ghost callee returning its argument; TokenType / Paren / ParenMod / InternedNumber / OptLevel / SteelVal::is_truthy / If::new / the ConstantEvaluator struct are extracted verbatim",
             "units/anl/prelude.rs: reduced AST (real field names; accessors extracted verbatim from steel-parser), AnalysisPass with the real traversal fields (list checked against the real struct every run) + ghost event log, quickscope::ScopeMap / FxHashMap / SmallVec / ThinVec as exact finite models; `self.visit` is the CALLEE CONTRACT of the recursive visitor (records the state it is called in; returns with tail flag, escape flag, stack offset and context depth unchanged, defining context unchanged or cleared); visit_define_without_body abstracted",
             "units/vm/prelude.rs: VmCore/SteelThread with only the touched fields (field lists checked against the real structs every run), frame stack with a ghost count of older frames, reduced SteelVal/ByteCodeLambda, RootedInstructions as a raw slice pointer, message-less stop!",
